@@ -18,7 +18,7 @@ ID = "C07"
 TECHNIQUE = ("Hypothesis-generated systems/operators/states: differential operator-form vs tensor-form (action, "
              "conversion, propagation, every basis), time-dependent vs static tensor limits, and the closed-form "
              "pure-dephasing solution for uncoupled sites")
-LEVEL = ("(1) Redfield (static) and Lindblad tensors built twice from identical generated inputs, once as operators and "
+LEVEL = ("(Limit clause also with a bath-memory cut-off time and through both construction routes; time-dependent operator form converted to a tensor and compared in every basis.) (1) Redfield (static) and Lindblad tensors built twice from identical generated inputs, once as operators and "
          "once as a four-index tensor: apply(A) on generated non-Hermitian complex operators agrees outside any context, "
          "inside eigenbasis_of(H) and inside an unrelated basis, before and after convert_2_tensor(); (2) propagation "
          "with both forms (static and time-dependent Redfield, Lindblad; output axis equal to or coarser than the "
